@@ -339,7 +339,8 @@ class Report:
               "violations": len(self.violations), "known_findings_hit": sorted(self.known_hits),
               "notes": self.notes}
         os.makedirs(V + "/evidence", exist_ok=True)
-        json.dump(ev, open(f"{V}/evidence/{self.prop}.json", "w"), indent=1)
+        if not getattr(self, "replay", False):      # a replay run is not a coverage run: keep the last evidence file
+            json.dump(ev, open(f"{V}/evidence/{self.prop}.json", "w"), indent=1)
         for fid, desc in sorted(self.known_hits.items()):
             print(f"KNOWN-FINDING: property={self.prop} {fid}: {desc}")
         for v in self.violations:
